@@ -44,7 +44,7 @@ MUT = {
     # the jitter is subtracted: retries come earlier than the retry interval
     "evt-jitter-subtracted": ("TickRun:x4tick", EVT, "\t}, r.optsRetryInterval+time.Duration(crypto.Randomness.Float64()*float64(r.optsRetryJitter)))", "\t}, r.optsRetryInterval/2+time.Duration(crypto.Randomness.Float64()*float64(r.optsRetryJitter)))"),
     # the retry callback reschedules before it looks whether the ticker still exists (a stopped ticker keeps ticking)
-    "evt-resched-ignores-stop": ("TickRun:x4tick", EVT, "requestExists && currentTask == *ownTask {", "requestExists || !requestExists {"),
+    "evt-resched-ignores-stop": ("TickRun:x4tick", EVT, "requestExists && currentTask == *ownTask {", "requestExists || currentTask != *ownTask {"),
     # TickerFailed is triggered while the ticker mutex is held: a hook that restarts the ticker deadlocks
     "evt-failed-hook-under-mutex": ("TickRun:x4tick", EVT, "\t\t\tr.tickerMutex.Unlock()\n\n\t\t\tr.Events.TickerFailed.Trigger(id)\n", "\t\t\tr.Events.TickerFailed.Trigger(id)\n\n\t\t\tr.tickerMutex.Unlock()\n"),
     # ---------------- runtime/timeutil ----------------
